@@ -623,7 +623,9 @@ def main(argv):
             known_findings=[f"{k['unit']}/{k['function']}/{k['clause']}" for k in known_hits],
             replays=replay_paths,
         ),
-        assumptions=pconf.get("assumptions", []),
+        # what the verdict rests on without checking it: the stated trust of the property (level note), then every stand-in / assumed
+        # contract / external body found by the mechanical scan of the generated files of this run
+        assumptions=pconf.get("assumptions", []) + ([pconf["level_note"]] if pconf.get("level_note") else []) + sorted(set(trusted)),
         wall_s=round(time.time() - t_start, 2),
         violations=len(violations),
     )
